@@ -138,6 +138,13 @@ def valid_pool(name, rng, size):
                 cands.append(S.RESPELL[name](s, rng))
             except Exception:  # noqa: BLE001
                 pass
+        if rng.random() < 0.35:
+            # a digit run written with a leading zero (the first one too)
+            import re
+            runs = [m.start() for m in re.finditer(r"[0-9]+", s)]
+            if runs:
+                i = rng.choice(runs[:1] + runs)
+                cands.append(s[:i] + "0" + s[i:])
         for t in cands:
             if t in seen or any(ord(c) > 127 for c in t):
                 continue
